@@ -13,6 +13,8 @@ f0_1:
   call f14_0
   call f1_1
   lea d_f0_1(%rip),%rax
+  mov wvsv2@GOTPCREL(%rip),%rax
+  mov wvsv2(%rip),%rax
   ret
 .section .data.d_f0_1,"aw",@progbits
 .globl d_f0_1
